@@ -14,3 +14,6 @@ Proof.
            (leb RO (c_001 RO) (sub RO h (ofZ RO (floorZ RO h)))); cbn [andb];
     cbn [rintZ ofZ RO]; rewrite ?rint_IZR; reflexivity.
 Qed.
+
+Lemma gen_sign_is_model (x : R) : IZR (gen_sign RO x) = signT RO x.
+Proof. unfold gen_sign, signT, zeroT. cbn [ltb ofZ RO]. destruct (Rltb x 0); reflexivity. Qed.
